@@ -135,7 +135,7 @@ func c18Units(tier string) []*Unit {
 		maxW := 6
 		dedicated := map[string]bool{"defer-same-task-parallel": true, "matrix-ref-parallel-deps": true, "dynvars-parallel": true,
 			"once-failing-two-callers": true, "c17-executor-group": true, "c17-executor-prefixed": true, "reader-sibling-includes": true, "reader-diamond-dirs-dynvar": true,
-			"shared-set-and-shopt-lists-parallel": true, "missing-tasks-resolved-in-parallel": true, "wildcard-and-alias-resolution-parallel": true}
+			"shared-set-and-shopt-lists-parallel": true, "missing-tasks-resolved-in-parallel": true}
 		heavy := map[string]bool{"c01-twolevel-cancel": true, "c01-nested-call-in-dep-N1": true, "c07-fail-nested-N2": true}
 		switch {
 		case dedicated[e.name]:
